@@ -28,6 +28,7 @@ def main(argv=None):
     ap.add_argument('--expect-key')
     ap.add_argument('--expect-digest')
     ap.add_argument('--digest-runs')
+    ap.add_argument('--context')
     ap.add_argument('--budget', type=float, default=None)
     a = ap.parse_args(argv)
     if a.prop not in ENGINES:
@@ -41,7 +42,7 @@ def main(argv=None):
     if a.replay:
         return runner.replay(eng, a.prop, a.replay, a.expect_key, a.expect_digest)
     if a.digest_runs:
-        return runner.digest_runs(eng, a.prop, a.tier, seed, [int(x) for x in a.digest_runs.split(',') if x])
+        return runner.digest_runs(eng, a.prop, a.tier, seed, [int(x) for x in a.digest_runs.split(',') if x], a.context)
     budget = a.budget
     if budget is None and os.environ.get('VERIF_BUDGET_S'):
         budget = float(os.environ['VERIF_BUDGET_S'])
